@@ -19,6 +19,7 @@ VARIANTS = {
     'asan': ['-fsanitize=address,undefined', '-fno-sanitize-recover=all', '-fno-omit-frame-pointer'],
     'plain': [],
     'tsan': ['-fsanitize=thread'],
+    'cov': ['--coverage', '-O0'],      # py/coverage.py only
 }
 
 SPLINE_DIMS = list(range(1, 11))
